@@ -33,11 +33,11 @@ CASE_TIMEOUT = 900
 
 
 def plan(tier, seed):
-    n = 12 if tier == "quick" else 320
+    n = 12 if tier == "quick" else 100
     NCH = 6  # the one-preemption plans of one (program, priority order) are split over NCH specs so that they run in parallel
     specs = [{"part": "threads", "seed": seed, "i": i, "tier": tier, "order": o, "chunk": ch, "nchunks": NCH}
              for i in range(n) for o in range(2 if tier == "quick" else 3) for ch in range(NCH)]
-    m = 64 if tier == "quick" else 1600
+    m = 64 if tier == "quick" else 800
     specs += [{"part": "async", "seed": seed, "i": i, "tier": tier} for i in range(m)]
     return specs
 
